@@ -49,6 +49,12 @@ func c08cli(c *h.Ctx) {
 		// one variation whose value is template text over the same variable: whether taskctl renders it or not, what
 		// an execution sees must be derived from its own variables only
 		tplVariation := r.Chance(35)
+		// one of the task's own variables is a template over a variable that stages override: what it renders to is
+		// part of every execution's own view (a value rendered for one stage must not be served to the next)
+		tplVar := r.Chance(40)
+		if tplVar {
+			taskVars["DERIVED"] = "derived-{{ .CVAR }}"
+		}
 		arr := []string{"parallel", "chain", "mixed"}[r.Intn(3)]
 		type st struct {
 			id, dir   string
@@ -58,6 +64,9 @@ func c08cli(c *h.Ctx) {
 		}
 		envKeys := map[string]bool{"STAGE_ID": true, "TK": true, "COMMON": true, "INHERITED": true}
 		varKeys := map[string]bool{"TVAR": true, "CVAR": true}
+		if tplVar {
+			varKeys["DERIVED"] = true
+		}
 		mk := func(pfx string, k int) []st {
 			var out []st
 			for j := 0; j < k; j++ {
@@ -85,7 +94,7 @@ func c08cli(c *h.Ctx) {
 					s.vars["V_"+id] = "var-of-" + id
 					varKeys["V_"+id] = true
 				}
-				if r.Chance(30) || ((tplDir || tplVariation) && r.Chance(50)) {
+				if r.Chance(30) || ((tplDir || tplVariation || tplVar) && r.Chance(50)) {
 					s.vars["CVAR"] = "cvar-of-" + id
 					os.MkdirAll(real+"/dir-of-cvar-of-"+id, 0o755)
 				}
@@ -234,6 +243,10 @@ func c08cli(c *h.Ctx) {
 			if kv["where"] == "cmd" {
 				seen[id]++
 			}
+			if tplVar {
+				wantVars = h2overlay(wantVars, map[string]string{"DERIVED": "derived-" + wantVars["CVAR"]})
+				c.Count("cli_templated_task_variable_lines", 1)
+			}
 			where += " (" + kv["where"] + ")"
 			if _, ok := wantEnv["INHERITED"]; !ok {
 				wantEnv = h2overlay(wantEnv, map[string]string{"INHERITED": "from-parent"})
@@ -261,6 +274,9 @@ func c08cli(c *h.Ctx) {
 			for _, k := range vk {
 				w, defined := wantVars[k]
 				g := kv["var."+k]
+				if k == "DERIVED" && kv["where"] != "cmd" && g == "derived-{{ .CVAR }}" {
+					continue // hooks are compiled without the pass that renders variable values: the unrendered text is the task's own
+				}
 				if defined && g != w {
 					sig := "cli-variable-wrong-value"
 					if absentVal(g) {
